@@ -101,6 +101,9 @@ func (e *event) String() string {
 		}
 		return s
 	case "panic":
+		if e.Cls == "PExit" {
+			return "runtime.Goexit"
+		}
 		return "panic " + e.Cls
 	}
 	return "end"
@@ -397,6 +400,11 @@ func (g *G) exec(env []px.Context, p *Prog) {
 		w.mu.Unlock()
 	case "Panic":
 		g.guard(func() { panic(userPanic{}) })
+	case "Goexit":
+		// not a panic: every recover() on the way (guard, scopeEnd, Try, pcore.Try, top) returns nil, the deferred
+		// functions of the implementation and the harness' scope-exit steps run, the goroutine ends
+		g.emit(event{Kind: "panic", Cls: "PExit"})
+		runtime.Goexit()
 	case "Observe":
 		g.observe(env, p)
 	case "Try":
